@@ -5,6 +5,7 @@ import ast
 from ..model import AnalysisError, need, call_name, const_str, unparse
 from ..cfg import cfg_of
 from .common import stmt_text
+from .optionrules import rule_ctor_names
 
 VALUE_CLASSES = ['droop.values.fixed.Fixed', 'droop.values.guarded.Guarded', 'droop.values.rational.Rational']
 
@@ -403,7 +404,7 @@ def r49_per_election_objects(ctx):
                 c = s.value
                 tgt = repo.resolve_class_expr(c.func, init.module)
                 isb = isinstance(c.func, ast.Name) and c.func.id in ('list', 'dict', 'set')
-                isrule = isinstance(c.func, ast.Name) and c.func.id == 'Rule'
+                isrule = isinstance(c.func, ast.Name) and c.func.id == rule_ctor_names(init)[0] and rule_ctor_names(init)[1] is not None
                 if tgt is None and not isb and not isrule:
                     ok = False
                 detail = unparse(c)
